@@ -25,3 +25,4 @@ def run(prog, rep):
     from ..rules import r_safe as _rsn
     _rsn.run_namebuf(prog, rep)
     _ro2.run_lookup_via(prog, rep)
+    _ro2.run_exact_compare(prog, rep)
